@@ -487,6 +487,9 @@ func (w *World) step(op *Op) {
 
 // afterFault checks that the failed call changed nothing.
 func (w *World) afterFault(op *Op) {
+	// the comparisons are the harness's own reads, not the op's (C09 monitor, C19 read log)
+	w.setAPI(w.opIdx, true)
+	defer w.setAPI(w.opIdx, false)
 	switch op.K {
 	case OpRevert:
 		// The store is only required to be sane again after re-opening the file.
